@@ -65,6 +65,7 @@ def main():
     ap.add_argument("--repo", default=os.environ.get("VERIF_REPO", "/repo"))
     ap.add_argument("--jobs", type=int, default=8)
     ap.add_argument("--only", default="")
+    ap.add_argument("--json", default="")
     a = ap.parse_args()
     binary = os.path.join(V, "bin", "grpchanlint")
     pat = "*" if a.prop == "all" else a.prop
@@ -75,11 +76,15 @@ def main():
         print("variants: none for", a.prop)
         return 0
     bad = 0
+    rows = []
     with cf.ThreadPoolExecutor(max_workers=a.jobs) as ex:
         for name, st, msg in ex.map(lambda f: run_variant(f, a.repo, binary), files):
             print("variant %-55s %-11s %s" % (name, st, msg))
+            rows.append({"variant": name, "status": st, "detail": msg[:200]})
             if st not in ("OK", "SKIP"):
                 bad += 1
+    if a.json:
+        json.dump(rows, open(a.json, "w"))
     print("variants: %d run, %d not as expected" % (len(files), bad))
     return 2 if bad else 0
 
